@@ -31,10 +31,12 @@ ASSUMPTIONS = ["the damage does not spell an additional entry marker (the format
                "bogus entries inside the damaged bytes do not decode to the path of another file"]
 RULE = ("trees of 2-5 files, both tools, all parameter sets; victim entry first / middle / last; damage classes: 1-3 random bytes, many random "
         "bytes, zero-fill runs, destroyed marker, destroyed n-th delimiter, non-numeric size, garbage of the entry's length, garbage of length "
-        "0-3x the entry, entry cut short (incl. < 4 bytes); some files damaged within capacity so that there is something to repair; compared "
+        "0-3x the entry, entry cut short (incl. < 4 bytes), entry losing 1-40 bytes at its very end with its file intact (the last read of the "
+        "track runs into the next marker), entry reduced to its marker; some files damaged within capacity so that there is something to repair; compared "
         "with the run on the pristine ecc file; non-trivial = victim not the only entry; distinct = distinct (scenario, victim, class)")
 
-KINDS = ["few", "many", "zeros", "marker", "delim1", "delim2", "delim3", "delim4", "size", "garbage", "garbage_long", "shorten", "tiny"]
+KINDS = ["few", "many", "zeros", "marker", "delim1", "delim2", "delim3", "delim4", "size", "garbage", "garbage_long", "shorten", "tiny", "tailcut",
+         "tailcut", "tailcut", "empty"]
 
 
 def damage_entry(rng, ent, f, s, kd):
@@ -67,12 +69,17 @@ def damage_entry(rng, ent, f, s, kd):
         ent = ent[:rng.randrange(len(ent))]
     elif kd == "tiny":
         ent = ent[:10 + rng.randint(0, 4)]
+    elif kd == "tailcut":
+        # the entry loses a few bytes at its very end (less than one block of ecc): the last read of the track runs into the next marker
+        ent = ent[:max(10, len(ent) - rng.choice([1, 2, 3, rng.randint(1, 12), rng.randint(1, 40)]))]
+    elif kd == "empty":
+        ent = ent[:10]      # nothing left after the marker
     return bytes(ent)
 
 
 def run(oc, tier, seed, model_available, escalate):
     rng = random.Random(seed * 611953 + 8)
-    n = 26 if tier == "quick" else 500
+    n = 90 if tier == "quick" else 1500
     if escalate:
         n *= 2
     d = os.path.join(common.scratch(), "c08")
@@ -111,8 +118,13 @@ def run(oc, tier, seed, model_available, escalate):
         eu.write_tree(droot, dmg)
         rc0, st0, out0, _ = eu.correct(P, droot, ecc, os.path.join(d, "out0"))
         vi = rng.choice([0, len(bounds) - 1, rng.randrange(len(bounds))])
-        s, e = bounds[vi]
         kd = rng.choice(KINDS)
+        if kd == "tailcut":
+            # directed: a victim whose file is intact and which is followed by another entry (its last track read then runs into the next marker)
+            cand = [j for j in range(len(bounds) - 1) if dmg[order[j]] == tree[order[j]]]
+            if cand:
+                vi = rng.choice(cand)
+        s, e = bounds[vi]
         new_ent = damage_entry(rng, data[s:e], fields[vi], s, kd)
         new = data[:s] + new_ent + data[e:]
         # exclusion: the damaged bytes (together with the following marker) must not spell a marker other than the victim's own (or none)
